@@ -768,6 +768,32 @@ def _arith_kind(a, b, div=False):
     return int
 
 
+POW_BOUND = {2: 1.3407807929942596e154}
+
+
+def _mentions_exp(t, _memo={}):
+    """does the term contain the result of an exp() application?  (only those can reach the overflow range of ** within
+    the property's domain; bases that are polynomial in the inputs are bounded by the magnitude argument of C08)"""
+    k = t.get_id()
+    if k in _memo:
+        return _memo[k]
+    stack, seen, hit = [t], set(), False
+    while stack:
+        x = stack.pop()
+        i = x.get_id()
+        if i in seen:
+            continue
+        seen.add(i)
+        if z3.is_const(x) and x.decl().kind() == z3.Z3_OP_UNINTERPRETED and x.decl().name().startswith('exp!'):
+            hit = True
+            break
+        stack.extend(x.children())
+    if len(_memo) > 20000:
+        _memo.clear()
+    _memo[k] = hit
+    return hit
+
+
 class Sym:
     """symbolic number: z3 Real term + python kind + shadows + interval facts"""
     __slots__ = ('t', 'kind', 's', 'f', 'c')
@@ -908,6 +934,17 @@ class Sym:
 
     def __pow__(s, n):
         if isinstance(n, int) and not isinstance(n, bool) and n >= 0:
+            if n >= 2 and ENG is not None and ENG.opts.get('pow_overflow') is not None and s.kind is builtins.float and _mentions_exp(s.t):
+                # float ** int raises OverflowError when the result leaves the double range (C08); the extra constraints
+                # (opts['pow_overflow']: the numeric range of beta the property states) are part of the guard condition
+                bound = POW_BOUND.get(n) or (1.7976931348623157e308 ** (1.0 / n)) * (1 - 1e-12)
+                lo, hi = s.f[0], s.f[2]
+                if not (lo is not None and hi is not None and builtins.max(abs(lo), abs(hi)) < bound):
+                    cond = z3.And(z3.Or(s.t > rv(bound), s.t < -rv(bound)), *ENG.opts['pow_overflow'])
+                    if ENG.guard(cond, [(abs(v) > bound, v == v) for v in s.s], f'OverflowError(** {n})'):
+                        raise OverflowError("(34, 'Numerical result out of range')")
+                else:
+                    ENG.gfacts = getattr(ENG, 'gfacts', 0) + 1
             r = z3.RealVal(1)
             for _ in range(n):
                 r = r * s.t
@@ -1159,6 +1196,10 @@ def _pos_axiom(a, r, thr, two_sided=False):
 def ax_exp(a, r, lst):
     A = ENG.add_axiom
     _pos_axiom(a, r, UF_EXP)
+    if ENG.opts.get('pow_overflow') is not None:
+        # growth anchors (G): exp(354) < 5.5e153, exp(177) < 7.4e76 - what bounds a power of an exp() result
+        A(z3.Implies(a <= 354, r <= rv(5.5e153)), 0)
+        A(z3.Implies(a <= 177, r <= rv(7.4e76)), 0)
     A(z3.Implies(a < 0, r < 1))
     A(z3.Implies(a > 0, r > 1))
     A(z3.Implies(a == 0, r == 1))
